@@ -79,7 +79,7 @@ PROPS = {
             {"stream": "session", "n_quick": 600, "n_thorough": 60000, "timeout_quick": 900, "timeout_thorough": 6000},
         ],
         "trusted": BER_TRUST + ["strings.EqualFold modelled for ASCII only (criteria alphabets are ASCII)"],
-        "assumptions": ["route criteria and request strings are ASCII in the theorems' EqualFold model"],
+        "assumptions": ["route criteria and request strings are ASCII in the theorems' EqualFold model; tables with non-ASCII search criteria (case variants where lower-casing and case folding differ) are generated too, skipped by the model and judged by the reference oracle (strings.EqualFold) alone"],
     },
     "C04": {
         "inventory_closure": True,
